@@ -33,8 +33,9 @@ class CapStream(io.RawIOBase):
         self.buf = bytearray()
         self.calls = 0              # completed write/flush calls
         self.flushed = 0            # bytes written and followed by a completed flush
-        self.fault = None           # dict(at=int, kind='io'|'died', after=bool)
+        self.fault = None           # dict(at=int, kind='io'|'died'|'stall'|'eagain', after=bool[, partial=bool])
         self.armed = False
+        self.eagain_fired = False   # the one-shot kind 'eagain' strikes once per stream (re-arm by resetting this)
 
     def fileno(self):
         return self.tty_fd
@@ -54,6 +55,15 @@ class CapStream(io.RawIOBase):
             if idx >= f["at"] and phase == "before":
                 raise BlockingIOError(errno.EAGAIN, "injected stall: resource temporarily unavailable")
             return
+        if f["kind"] == "eagain":
+            # ONE-SHOT EAGAIN (a non-blocking tty/pipe whose reader fell behind for a moment): BlockingIOError at call
+            # `at` only — before the call took effect, or after it; a repetition of the call goes through.
+            # (partial=True on a write call is handled in write(): a prefix of the data is accepted first.)
+            after = bool(f.get("after")) and not f.get("partial")   # (partial on a flush call = before)
+            if not self.eagain_fired and f["at"] == idx and ((phase == "before") != after):
+                self.eagain_fired = True
+                raise BlockingIOError(errno.EAGAIN, "injected one-shot EAGAIN: resource temporarily unavailable")
+            return
         if f["at"] == idx and ((phase == "before") != bool(f.get("after"))):
             if f["kind"] == "died":
                 if self.sink is not None:
@@ -64,6 +74,18 @@ class CapStream(io.RawIOBase):
     def write(self, b):
         b = bytes(b)
         idx = self.calls
+        f = self.fault
+        if (self.armed and f and f.get("kind") == "eagain" and f.get("partial") and f["at"] == idx and not self.eagain_fired
+                and len(b) >= 2):
+            # short write reported the way a buffered writer over a non-blocking descriptor does: a prefix of the
+            # data has been accepted, then BlockingIOError carrying characters_written (the call did not complete)
+            n = len(b) // 2
+            self.eagain_fired = True
+            self.buf += b[:n]
+            if self.sink is not None:
+                self.sink.write(b[:n])
+            self.log.add(self.name_, "write-partial", b[:n])
+            raise BlockingIOError(errno.EAGAIN, "injected one-shot EAGAIN after a partial write", n)
         self._maybe_fault("before", idx)
         self.buf += b
         if self.sink is not None:
@@ -100,11 +122,15 @@ def open_tty() -> int:
     return os.open("/dev/tty", os.O_RDWR | os.O_NOCTTY)
 
 
-def make_terminal(dbfile: str, terminal_id: str, log: EventLog, tty_fd: int, *, cmd_sink=None, terminal_name="xterm-kitty", **config):
+def make_terminal(dbfile: str, terminal_id, log: EventLog, tty_fd: int, *, cmd_sink=None, terminal_name="xterm-kitty",
+                  session_id="S", stream_name=None, **config):
+    """terminal_id / terminal_name / session_id None = let the library detect them (WINDOWID, or tmux display-message);
+    the capturing streams are then named after `stream_name`."""
     import tupimage
 
-    cmd = CapStream("cmd:" + terminal_id, log, tty_fd, sink=cmd_sink)
-    disp = CapStream("disp:" + terminal_id, log, tty_fd)
+    sname = stream_name if stream_name is not None else terminal_id
+    cmd = CapStream("cmd:" + sname, log, tty_fd, sink=cmd_sink)
+    disp = CapStream("disp:" + sname, log, tty_fd)
     t = tupimage.TupimageTerminal(
         out_command=cmd,
         out_display=disp,
@@ -113,7 +139,7 @@ def make_terminal(dbfile: str, terminal_id: str, log: EventLog, tty_fd: int, *, 
         config="DEFAULT",
         terminal_id=terminal_id,
         terminal_name=terminal_name,
-        session_id="S",
+        session_id=session_id,
         **config,
     )
     return t, cmd, disp
